@@ -1,5 +1,8 @@
 import Capella.Driver.Util
 import Capella.Model.Pods
+import Capella.Model.PodsDt
+import Capella.Model.PodsLinked
+import Capella.Model.PodsSpecMap
 import Capella.Gen.Pods
 /-!
 Protocol driver for the POD model (property C07).
@@ -8,6 +11,12 @@ The parameters of the model (what CPython / libxml2 compute) are supplied per re
 tables* (`"oracle": {"repair": [[s, r|null], …], "fparse": …}`) recorded by the harness from the
 implementation; a lookup miss yields a sentinel that can never agree with the implementation.
 Descriptors are taken from the generated table by row index, so a run ties model, table and code.
+
+Not oracles any more: aware datetimes are structured values (`DT`), `isoformat` / `fromisoformat` on the
+shapes the code writes / millisecond truncation are the functions of `Model/PodsDt.lean` (the `fromiso`
+oracle answers only for foreign shapes); `escape_linked_text` / `unescape_linked_text` are the functions
+of `Model/PodsLinked.lean` on the sub-language (the `esc` / `unesc` oracles answer only for foreign
+strings; `look` is `loader[href]`).
 -/
 namespace Capella.Driver.Pods
 open Lean Capella.Driver Capella.Pods
@@ -36,16 +45,38 @@ def floatOfRepr (s : Str) : FloatV Str :=
 def reprOfFloat : FloatV Str → Str
   | .nan => "nan".toList | .inf => "inf".toList | .ninf => "-inf".toList | .fin s => s
 
-def mkParams (o : Json) : Params :=
+/-- "y,mo,d,h,mi,s,us,off" -/
+def dtOfCsv (s : Str) : Option DT :=
+  match ((String.ofList s).splitOn ",").map String.toInt? with
+  | [some y, some mo, some d, some h, some mi, some sc, some us, some off] =>
+    some ⟨y.toNat, mo.toNat, d.toNat, h.toNat, mi.toNat, sc.toNat, us.toNat, off⟩
+  | _ => none
+
+def missDT : DT := ⟨0, 0, 0, 0, 0, 0, 0, 0⟩
+
+/-- `[[href, "named", name] | [href, "unnamed"|"missing"|"malformed"], …]` -/
+def lookOf (j : Json) (k : String) : Str → Target :=
+  let tbl : List (Str × Target) :=
+    match j.getObjVal? k with
+    | .ok (.arr a) =>
+      a.toList.filterMap fun e =>
+        match e with
+        | .arr #[.str h, .str "named", .str n] => some (h.toList, Target.named n.toList)
+        | .arr #[.str h, .str "unnamed"] => some (h.toList, Target.unnamed)
+        | .arr #[.str h, .str "missing"] => some (h.toList, Target.missing)
+        | .arr #[.str h, .str "malformed"] => some (h.toList, Target.malformed)
+        | _ => none
+    | _ => []
+  fun h => (lookup tbl h).getD (.named missS)
+
+/-- the float / HTML part: still oracles -/
+def baseParams (o : Json) : Params :=
   let fparse := getTable o "fparse"
   let fofint := getTable o "fofint"
-  let localize := getTable o "localize"
-  let iso := getTable o "iso"
-  let fromiso := getTable o "fromiso"      -- value: "A<tid>" aware, "N<nid>" naive, null error
-  let trunc := getTable o "trunc"
   let repair := getTable o "repair"
   let esc := getTable o "esc"
   let unesc := getTable o "unesc"
+  let look := lookOf o "look"
   { F := Str
     fZero := "0.0".toList
     fRepr := id
@@ -55,27 +86,46 @@ def mkParams (o : Json) : Params :=
       | some (some r) => some r | some none => none | none => some missS
     fIsZero := fun s => s = "0.0".toList || s = "-0.0".toList
     N := Str
-    T := Str
-    localize := fun n => match lookup localize n with
-      | some r => r | none => some missS
-    iso := fun t => match lookup iso t with
-      | some (some r) => r | _ => missS
-    fromIso := fun s => match lookup fromiso s with
-      | some (some ('A' :: t)) => some (.inr t)
-      | some (some ('N' :: n)) => some (.inl n)
-      | some none => none
-      | _ => some (.inr missS)
-    truncMs := fun t => match lookup trunc t with
-      | some (some r) => r | _ => missS
+    T := Unit
+    localize := fun _ => none
+    iso := fun _ => missS
+    fromIso := fun _ => none
+    truncMs := id
+    isoOk := fun _ => false
     repair := fun s => match lookup repair s with
       | some r => r | none => some missS
     xhtml := (o.getObjValAs? Bool "xhtml").toOption.getD false
-    escLinked := fun s => match lookup esc s with
-      | some r => r | none => some missS
-    unescLinked := fun s => match lookup unesc s with
-      | some (some r) => r | _ => missS }
+    -- the model's own codec on the sub-language, the oracle elsewhere
+    escLinked := fun s => match escapeLinked s with
+      | some r => exceptToOption r
+      | none => match lookup esc s with | some r => r | none => some missS
+    unescLinked := fun s => match unescapeLinked look s with
+      | some (.ok r) => r
+      | some (.error _) => missS
+      | none => match lookup unesc s with | some (some r) => r | _ => missS }
 
-def valOfJson (P : Params) (hF : P.F = Str) (hN : P.N = Str) (hT : P.T = Str) (j : Json) :
+def mkParams (o : Json) : Params :=
+  let localize := getTable o "localize"    -- naive id -> "y,mo,…,off" of `astimezone()`, null = it raises
+  let fromiso := getTable o "fromiso"      -- foreign shapes only: "A<csv>" aware, "N<nid>" naive, null error
+  withDT (baseParams o)
+    (fun n => match lookup localize n with
+      | some (some r) => some ((dtOfCsv r).getD missDT) | some none => none | none => some missDT)
+    (fun s => match lookup fromiso s with
+      | some (some ('A' :: t)) => some (.inr ((dtOfCsv t).getD missDT))
+      | some (some ('N' :: n)) => some (.inl n)
+      | some none => none
+      | _ => some (.inr missDT))
+
+def dtOfJson (j : Json) : Except String DT := do
+  match (← j.getObjValAs? (Array Int) "f").toList with
+  | [y, mo, d, h, mi, sc, us, off] => pure ⟨y.toNat, mo.toNat, d.toNat, h.toNat, mi.toNat, sc.toNat, us.toNat, off⟩
+  | _ => throw "bad datetime fields"
+
+def dtJson (t : DT) : Json :=
+  Json.arr #[Json.num t.y, Json.num t.mo, Json.num t.d, Json.num t.h, Json.num t.mi, Json.num t.s, Json.num t.us,
+    Json.num (Lean.JsonNumber.fromInt t.off)]
+
+def valOfJson (P : Params) (hF : P.F = Str) (hN : P.N = Str) (hT : P.T = DT) (j : Json) :
     Except String (PyVal P) := do
   let t ← j.getObjValAs? String "t"
   match t with
@@ -90,7 +140,7 @@ def valOfJson (P : Params) (hF : P.F = Str) (hN : P.N = Str) (hT : P.T = Str) (j
   | "str" => pure (.str (← getStr j "v"))
   | "member" => pure (.member (← getStr j "cls") (← getStr j "name") (← getStr j "value"))
   | "naive" => pure (.naive (hN ▸ (← getStr j "v")))
-  | "aware" => pure (.aware (hT ▸ (← getStr j "v")))
+  | "aware" => pure (.aware (hT ▸ (← dtOfJson j)))
   | "selector" => pure (.selector (← getStr j "v"))
   | "other" => pure .other
   | x => throw s!"unknown value type {x}"
@@ -137,7 +187,7 @@ def valJson (o : Json) : PyVal (mkParams o) → Json
   | .str s => Json.mkObj [("t", "str"), ("v", jstr s)]
   | .member c n v => Json.mkObj [("t", "member"), ("cls", jstr c), ("name", jstr n), ("value", jstr v)]
   | .naive n => Json.mkObj [("t", "naive"), ("v", jstr n)]
-  | .aware t => Json.mkObj [("t", "aware"), ("v", jstr t)]
+  | .aware t => Json.mkObj [("t", "aware"), ("f", dtJson t)]
   | .selector r => Json.mkObj [("t", "selector"), ("v", jstr r)]
   | .other => Json.mkObj [("t", "other")]
 
@@ -164,6 +214,35 @@ def kidsOf (j : Json) (k : String) : Except String Spec := do
 def jkids (s : Spec) : Json :=
   Json.arr (s.map fun c => Json.arr #[jstr c.tag, match c.text with | some t => jstr t | none => Json.null]).toArray
 
+partial def nodeOfJson (j : Json) : Except String Node := do
+  let tag ← getStr j "tag"
+  let href : Option Str := match j.getObjVal? "href" with | .ok (.str h) => some h.toList | _ => none
+  let kids ← (← j.getObjValAs? (Array Json) "kids").toList.mapM nodeOfJson
+  pure (.mk tag href (← getStr j "text") kids (← getStr j "tail"))
+
+def fragsOfJson (j : Json) : Except String Frags := do
+  let lead : Option Str := match j.getObjVal? "lead" with | .ok (.str h) => some h.toList | _ => none
+  let nodes ← (← j.getObjValAs? (Array Json) "nodes").toList.mapM nodeOfJson
+  pure ⟨lead, nodes⟩
+
+partial def nodeJson : Node → Json
+  | .mk tag href text kids tail =>
+    Json.mkObj [("tag", jstr tag), ("href", match href with | some h => jstr h | none => Json.null),
+      ("text", jstr text), ("kids", Json.arr (kids.map nodeJson).toArray), ("tail", jstr tail)]
+
+def fragsJson (f : Frags) : Json :=
+  Json.mkObj [("lead", match f.lead with | some h => jstr h | none => Json.null),
+    ("nodes", Json.arr (f.nodes.map nodeJson).toArray)]
+
+/-- `{"lead": s, "links": [[id, name, tail], …]}` -/
+def ltOfJson (j : Json) : Except String LT := do
+  let lead ← getStr j "lead"
+  let links ← (← j.getObjValAs? (Array (Array String)) "links").toList.mapM fun a =>
+    match a with
+    | #[i, n, t] => pure (⟨i.toList, n.toList, t.toList⟩ : Link)
+    | _ => throw "bad link"
+  pure ⟨lead, links⟩
+
 def handle (op : String) (j : Json) : Except String Json := do
   match op with
   | "table.size" => pure (Json.num Capella.Gen.Pods.podTable.length)
@@ -183,9 +262,16 @@ def handle (op : String) (j : Json) : Except String Json := do
     let after : Json := match r with
       | .ok a' => resJson (valJson o) (Capella.Pods.get (mkParams o) d a')
       | .error _ => Json.null
+    let isoCls (a : Attrs) : Json :=
+      match d.kind, a.get d.attr with
+      | .datetime, some data =>
+        match isoParse (reGet data) with
+        | .ok _ => "ok" | .bad => "bad" | .foreign => "foreign"
+      | _, _ => Json.null
     pure (Json.mkObj [("before", resJson (valJson o) before), ("set", resJson jattrs r), ("after", after),
       ("valid", valid (mkParams o) d v),
-      ("denote", valJson o (denote (mkParams o) d v))])
+      ("denote", valJson o (denote (mkParams o) d v)),
+      ("isoBefore", isoCls a), ("isoAfter", match r with | .ok a' => isoCls a' | .error _ => Json.null)])
   | "pod.get" =>
     let o := (j.getObjVal? "oracle").toOption.getD (Json.mkObj [])
     let d ← descOf j
@@ -208,24 +294,69 @@ def handle (op : String) (j : Json) : Except String Json := do
     let P := mkParams o
     let kids ← kidsOf j "kids"
     let steps ← j.getObjValAs? (Array Json) "steps"
-    let mut s := kids
-    let mut outs : Array Json := #[]
+    let mut ops : List SpecOp := []
     for st in steps do
       let so ← st.getObjValAs? String "o"
       match so with
-      | "get" =>
-        outs := outs.push (resJson jstr (specGet P s (← getStr st "k")))
-      | "set" =>
-        match specSet P s (← getStr st "k") (← getStr st "v") with
-        | .ok s' => s := s'; outs := outs.push (Json.mkObj [("ok", Json.null)])
-        | .error e => outs := outs.push (Json.mkObj [("exc", errName e)])
-      | "del" =>
-        match specDel s (← getStr st "k") with
-        | .ok s' => s := s'; outs := outs.push (Json.mkObj [("ok", Json.null)])
-        | .error e => outs := outs.push (Json.mkObj [("exc", errName e)])
-      | "keys" => outs := outs.push (Json.mkObj [("ok", jstrs (specKeys s))])
+      | "get" => ops := ops ++ [.get (← getStr st "k")]
+      | "set" => ops := ops ++ [.set (← getStr st "k") (← getStr st "v")]
+      | "del" => ops := ops ++ [.del (← getStr st "k")]
+      | "keys" => ops := ops ++ [.keys]
+      | "len" => ops := ops ++ [.len]
       | x => throw s!"unknown step {x}"
-    pure (Json.mkObj [("results", Json.arr outs), ("kids", jkids s)])
+    let (s, rs) := specRun P kids ops
+    let resJ : SpecRes → Json
+      | .val v => Json.mkObj [("ok", jstr v)]
+      | .unit => Json.mkObj [("ok", Json.null)]
+      | .keys l => Json.mkObj [("ok", jstrs l)]
+      | .len n => Json.mkObj [("ok", Json.num n)]
+      | .err e => Json.mkObj [("exc", errName e)]
+    -- which linked-text strings the model's own codec handled (the rest came from the oracle tables)
+    let escKeys := (getTable o "esc").map (·.1)
+    let unescKeys := (getTable o "unesc").map (·.1)
+    let wp : Bool := decide (WellPaired kids)
+    -- on a well-paired specification the reference dict must give the same answers (theorem `specRun_refines`)
+    let dictSame : Json := if wp then Json.bool (decide ((dictRun P (absDict kids) ops).2 = rs)) else Json.null
+    pure (Json.mkObj [("results", Json.arr (rs.map resJ).toArray), ("kids", jkids s),
+      ("wellPaired", wp), ("dictSame", dictSame),
+      ("escModelled", Json.num (escKeys.filter fun k => (parseSub k).isSome).length),
+      ("escForeign", Json.num (escKeys.filter fun k => (parseSub k).isNone).length),
+      ("unescModelled", Json.num (unescKeys.filter fun k => (parseSub k).isSome).length),
+      ("unescForeign", Json.num (unescKeys.filter fun k => (parseSub k).isNone).length)])
+  | "lt.parse" =>
+    match parseSub (← getStr j "s") with
+    | some f => pure (fragsJson f)
+    | none => pure Json.null
+  | "lt.escape.frags" =>
+    pure (resJson jstr (escapeFrags (← fragsOfJson (← j.getObjVal? "frags"))))
+  | "lt.unescape.frags" =>
+    pure (resJson jstr (unescapeFrags (lookOf j "look") (← fragsOfJson (← j.getObjVal? "frags"))))
+  | "lt.escape" =>
+    match escapeLinked (← getStr j "s") with
+    | some r => pure (resJson jstr r)
+    | none => pure Json.null
+  | "lt.unescape" =>
+    match unescapeLinked (lookOf j "look") (← getStr j "s") with
+    | some r => pure (resJson jstr r)
+    | none => pure Json.null
+  | "lt.value" =>
+    -- a canonical value given as tokens: its HTML form, its stored form, what reading shows
+    let v ← ltOfJson j
+    let look := lookOf j "look"
+    pure (Json.mkObj [("value", jstr (renderValue v)), ("raw", jstr (renderRaw v.dropLead)),
+      ("view", jstr (renderValue (view look v.dropLead))), ("ok", v.ok), ("live", allLive look v),
+      ("leadKept", v.leadKept), ("noMalformed", noMalformed look v),
+      ("readBack", match readBack look (renderValue v) with
+        | some r => resJson jstr r | none => Json.null)])
+  | "dt.format" =>
+    let t ← dtOfJson j
+    pure (Json.mkObj [("iso", jstr (isoFormat t)), ("stored", jstr (reSet (isoFormat t))), ("valid", t.valid),
+      ("isoOk", t.isoOk), ("trunc", dtJson (truncMs t))])
+  | "dt.parse" =>
+    match isoParse (← getStr j "s") with
+    | .ok d => pure (Json.mkObj [("ok", dtJson d)])
+    | .bad => pure "bad"
+    | .foreign => pure "foreign"
   | _ => throw s!"unknown op {op}"
 
 end Capella.Driver.Pods
